@@ -101,12 +101,12 @@ __attribute__((noinline)) static void deliver(const uint8_t *p, size_t n, int rx
   if (!g_sock) { w_dns->feed(p, n, *w_from); return; }
   socket_event(w_dns, rx, p, n, htonl(0x7f000001u));
 }
-__attribute__((noinline)) static Obs run_once(const Bytes &dg, unsigned char pv, int rx = RX_DATAGRAM) {
+__attribute__((noinline)) static Obs run_once(const Bytes &dg, unsigned char pv, int rx = RX_DATAGRAM, int err = EAGAIN) {
   world_make();
   Obs o; w_sink = &o;
   // exact-size heap copy: an over-read is an ASan heap-buffer-overflow
   uint8_t *p = (uint8_t *)malloc(dg.size() ? dg.size() : 1); memcpy(p, dg.data(), dg.size());
-  paint(pv);
+  paint(pv); g_rx_errno = err;
   deliver(p, dg.size(), rx);
   free(p); w_sink = nullptr; shm->execs++;
   w_pristine = !o.cb && w_dns->requests_.size() == 1 && w_dns->requests_.begin()->first == kId && w_dns->requests_.begin()->second.response_count == 0;
@@ -165,7 +165,7 @@ static void judge(const Bytes &dg, const std::string &label, const Obs &o0, cons
 // ------------------------------------------------------------------------------------------------
 // case enumeration
 static const uint8_t kSub[] = {0, 1, 0x3f, 0x40, 0xc0, 0xff};
-struct Case { Bytes dg; std::string label; int rx; };
+struct Case { Bytes dg; std::string label; int rx; int err; };
 static std::vector<Case> g_cases;           // struct mode
 static uint64_t g_ncases = 0; static int g_tail_max = 0;
 
@@ -231,8 +231,8 @@ static Bytes chain_reply(int k, bool cycle) {
   for (int i = 0; i < k; i++) { size_t at = i == 0 ? head : first + 2 * (size_t)(i - 1); size_t to = i + 1 < k ? first + 2 * (size_t)i : (cycle ? head : label); ptr(at, to); }
   return b;
 }
-static void add_case(Bytes dg, const std::string &label, int rx = RX_DATAGRAM) { if (dg.size() >= 1) dg[0] = kId >> 8; if (dg.size() >= 2) dg[1] = kId & 0xff; g_cases.push_back({dg, label, rx}); }
-static void add_case_raw(const Bytes &dg, const std::string &label) { g_cases.push_back({dg, label, RX_DATAGRAM}); }
+static void add_case(Bytes dg, const std::string &label, int rx = RX_DATAGRAM) { if (dg.size() >= 1) dg[0] = kId >> 8; if (dg.size() >= 2) dg[1] = kId & 0xff; g_cases.push_back({dg, label, rx, EAGAIN}); }
+static void add_case_raw(const Bytes &dg, const std::string &label) { g_cases.push_back({dg, label, RX_DATAGRAM, EAGAIN}); }
 static void build_struct_cases(bool pairs) {
   char l[160];
   for (auto &B : bases()) {
@@ -261,7 +261,22 @@ static void build_struct_cases(bool pairs) {
     snprintf(l, sizeof l, "chain:%s-of-%d-pointers", cyc ? "cycle" : "chain", k); add_case(chain_reply(k, cyc != 0), l); }
   if (g_sock) {   // kernel behaviours other than "here is a datagram": nothing may be processed (a valid reply is queued but NOT handed out)
     Bytes a = bases()[0].b;
-    add_case(a, "recv:zero-length-datagram", RX_ZERO); add_case(a, "recv:recvfrom-fails-EAGAIN", RX_ERROR);
+    add_case(a, "recv:zero-length-datagram", RX_ZERO);
+    add_case(a, "recv:recvfrom-fails-EAGAIN", RX_ERROR); add_case(a, "recv:recvfrom-fails-EINTR", RX_ERROR); g_cases.back().err = EINTR; add_case(a, "recv:recvfrom-fails-ECONNREFUSED", RX_ERROR); g_cases.back().err = ECONNREFUSED;
+    // datagrams LONGER than the receive buffer: the kernel stores the first `len` bytes (and, asked with MSG_TRUNC, returns the real
+    // length). They are judged as what was stored: the prefix. Built on MAX so that decoding wants to go on behind byte 4096.
+    const Base M = bases()[5]; size_t n = M.b.size();
+    for (size_t extra : {(size_t)1, (size_t)904, (size_t)1904}) {
+      Bytes tail; for (int i = 0; tail.size() < extra; i++) { put16(tail, 0xc00c); put16(tail, 1); put16(tail, 1); put32(tail, 7); put16(tail, 4); tail.insert(tail.end(), {66, 66, (uint8_t)i, 1}); } tail.resize(extra);
+      Bytes m = M.b; m.insert(m.end(), tail.begin(), tail.end());
+      snprintf(l, sizeof l, "oversize:MAX+%zu counts-unchanged", extra); add_case(m, l);
+      Bytes c = m; c[6] = 0; c[7] = 64; snprintf(l, sizeof l, "oversize:MAX+%zu ancount=64(62-in-the-buffer)", extra); add_case(c, l);
+      c = m; c[6] = 0xff; c[7] = 0xff; snprintf(l, sizeof l, "oversize:MAX+%zu ancount=65535", extra); add_case(c, l);
+      if (extra >= 16) { Bytes q = m; size_t p = M.ptrs[0]; size_t t = n + 4; q[p] = 0xc0 | (t >> 8); q[p + 1] = t & 0xff; const uint8_t nm[] = {1, 'o', 1, 'v', 0}; memcpy(&q[t], nm, 5);
+        snprintf(l, sizeof l, "oversize:MAX+%zu cname-pointer->%zu(behind-the-buffer)", extra, t); add_case(q, l);
+        Bytes u = m; size_t last = n - 16; u[last + 3] = 16; size_t rl = 4 + extra; u[last + 10] = rl >> 8; u[last + 11] = rl & 0xff;
+        snprintf(l, sizeof l, "oversize:MAX+%zu last-record-TXT-with-rdata-reaching-the-real-end", extra); add_case(u, l); }
+    }
   }
   g_ncases = g_cases.size();
 }
@@ -300,13 +315,15 @@ static void *worker_thread(void *arg) {
     const Bytes *pd; const std::string *pl; int rx = RX_DATAGRAM;
     if (g_tail) { tail_case(i, dg, label); pd = &dg; pl = &label; } else { pd = &g_cases[i].dg; pl = &g_cases[i].label; rx = g_cases[i].rx; }
     static const Bytes nothing; const Bytes *jd = rx == RX_DATAGRAM ? pd : &nothing;     // what the code under test was given
+    int err = g_tail ? EAGAIN : g_cases[i].err;
     unsigned vg0 = VALGRIND_COUNT_ERRORS;
-    shm->phase = 1; Obs o0 = run_once(*pd, 0x00, rx);
+    shm->phase = 1; Obs o0 = run_once(*pd, 0x00, rx, err);
     // second paint: 0xA5 (an uninitialised id/flags word then reads as "reply to the outstanding lookup"). In the tail sweep,
     // datagrams that do carry id and flags use 0x01 instead: uninitialised record counts then read 257 instead of 42405,
     // which keeps the 16.8 M-datagram sweep affordable (same defects, 160 times fewer garbage iterations).
     unsigned char p2 = (g_tail && pd->size() >= 4) ? 0x01 : 0xA5;
-    shm->phase = 2; Obs o1 = run_once(*pd, p2, rx);
+    shm->phase = 2; Obs o1 = run_once(*pd, p2, rx, err);
+    Bytes stored; if (g_sock && rx == RX_DATAGRAM && g_rx_last_len && pd->size() > g_rx_last_len) { stored.assign(pd->begin(), pd->begin() + g_rx_last_len); jd = &stored; }   // longer than the buffer offered: judged as the stored prefix
     unsigned vg1 = VALGRIND_COUNT_ERRORS;
     shm->phase = 3;
     if (vg1 != vg0) { Strict sx = ref_strict(jd->data(), jd->size()); violation("dns-" + (sx.shape == "well-formed" ? std::string("well-formed-reply") : sx.shape) + "-valgrind-reports-invalid-or-uninitialised-value-use", *pl, *jd, std::to_string(vg1 - vg0) + " memcheck errors during the two deliveries"); outcome(pl->substr(0, pl->find(' ')) + " -> memcheck-error"); }
@@ -394,6 +411,7 @@ int main(int argc, char **argv) {
     else effect = "crash-exit" + std::to_string(WEXITSTATUS(st));
     if (detail.empty()) { size_t f = err.find("    #"); for (int k = 0; k < 6 && f != std::string::npos; k++) { size_t e = err.find('\n', f); std::string ln = err.substr(f, e - f); if (ln.find("dns_request.cpp") != std::string::npos || ln.find("serializer.cpp") != std::string::npos) { detail = ln.substr(ln.find("#")); break; } f = err.find("    #", e); } }
     if (!g_tail && g_cases[at].rx != RX_DATAGRAM) { dg.clear(); sx = ref_strict(dg.data(), 0); shape = sx.shape; }
+    if (g_sock && dg.size() > kRecvBuf) { dg.resize(kRecvBuf); sx = ref_strict(dg.data(), dg.size()); shape = sx.shape == "well-formed" ? "well-formed-reply" : sx.shape; }
     char ph[80]; snprintf(ph, sizeof ph, "died in phase %d (1=paint00 2=second paint 3=oracle 4=follow-up reply)", shm->phase);
     violation("dns-" + shape + "-" + effect, label, dg, std::string(ph) + (detail.empty() ? "" : "; " + detail));
     outcome(label.substr(0, label.find(' ')) + " -> " + effect);
